@@ -9,6 +9,9 @@ import LLRP.Oracle.C15
 import LLRP.Oracle.C12
 import LLRP.Oracle.C13
 import LLRP.Oracle.C20
+import LLRP.Oracle.C06
+import LLRP.Oracle.C05
+import LLRP.Oracle.C07
 /-!
 `oracle`: line-protocol driver of the executable models (one request per line on stdin, one reply per line on
 stdout). Imports only `LLRP.Model.*`, `LLRP.Gen.*` and `LLRP.Oracle.*` (never Mathlib, never proofs) so that it
@@ -27,7 +30,11 @@ def handlers : List Handler := [
   handleC15,
   handleC12,
   handleC13,
-  handleC20
+  handleC20,
+  handleC20,
+  handleC06,
+  handleC05,
+  handleC07
 ]
 
 def handle (line : String) : String :=
